@@ -395,7 +395,21 @@ class G:
         i = idx[-1] if r.random() < 0.6 else r.choice(idx)
         kind, n, c = its[i]
         out = list(its)
-        if r.random() < 0.6:
+        k = r.random()
+        if c is not None and k < 0.3:
+            # both components change, and in OPPOSITE directions: a comparator that looks at the constraint first
+            # orders the pair differently from one that looks at the name first
+            names = sorted(x for x in NAMES + [b'q', b'z'] if x != n)
+            conss = sorted(x for x in CONS if x != c)
+            lower_c = [x for x in conss if x < c]; higher_c = [x for x in conss if x > c]
+            lower_n = [x for x in names if x < n]; higher_n = [x for x in names if x > n]
+            if lower_c and higher_n and (r.random() < 0.5 or not (higher_c and lower_n)):
+                out[i] = (kind, r.choice(higher_n), r.choice(lower_c))
+            elif higher_c and lower_n:
+                out[i] = (kind, r.choice(lower_n), r.choice(higher_c))
+            else:
+                out[i] = (kind, n, r.choice(conss))
+        elif k < 0.7:
             others = [x for x in CONS if x != c]
             out[i] = (kind, n, r.choice(others))
         else:
@@ -602,6 +616,31 @@ def scen_clone(g, n):
             for p in paths[:6]:
                 for x in rids:
                     L.append('search %s %s' % (x, hx(p)))
+        out += L + ['end']
+    return out
+
+
+def scen_longpath(g, n):
+    """paths around and beyond 4096 bytes on routers whose templates make such searches cheap for the model (a literal
+    route, a catch-all, a dynamic segment): length limits, truncation"""
+    r = g.r
+    out = []
+    for _ in range(n):
+        L = ['new 0']
+        word = r.choice([b'files', b'static', b'f'])
+        lit = b'/' + b's' * r.choice([4090, 4095, 4096, 4097, 5000])
+        L.append('insert 0 %s 1' % hx(b'/' + word + b'/{*rest}'))
+        L.append('insert 0 %s 2' % hx(lit))
+        L.append('insert 0 %s 3' % hx(b'/d/{seg}/end'))
+        for total in r.sample([4094, 4095, 4096, 4097, 4098, 5000] + ([8200, 16500] if n >= 16 else []), 2 if n < 16 else 3):
+            k = max(1, (total - len(word) - 2) // 2)
+            L.append('search 0 ' + hx(b'/' + word + b'/' + b'a/' * k))
+            L.append('search 0 ' + hx(b'/' + word + b'/' + b'a' * (2 * k)))
+        L.append('search 0 ' + hx(lit))
+        L.append('search 0 ' + hx(lit + b'/and/more'))
+        L.append('search 0 ' + hx(lit[:-1]))
+        L.append('search 0 ' + hx(b'/d/' + b'x' * r.choice([4090, 4100] + ([9000] if n >= 16 else [])) + b'/end'))
+        L.append('search 0 ' + hx(b'/d/' + b'x' * 4100 + b'/end/more'))
         out += L + ['end']
     return out
 
@@ -986,7 +1025,7 @@ def make(scen, seed, n):
     if scen.startswith('ocinamex'):
         return scen_ociname_exhaustive(int(scen[8:]))
     table = {'hist': scen_hist, 'fresh': scen_fresh, 'clone': scen_clone, 'threads': scen_threads,
-             'parse': scen_parse_random, 'builtin': scen_builtin, 'groups': scen_groups,
+             'longpath': scen_longpath, 'parse': scen_parse_random, 'builtin': scen_builtin, 'groups': scen_groups,
              'single': scen_single, 'oci': scen_oci, 'conflict': scen_conflict, 'roundtrip': scen_roundtrip}
     return table[scen](g, n)
 
